@@ -181,6 +181,48 @@ func ruleVerifyWindow(c *RC) *RuleResult {
 			}
 		}
 	}
+	//  4. under anti-MEV the header cannot be had until the pre-block is processed: commits that arrive before that are
+	//     parked unverified (obligation 1 accepts it). The window closes when the flag is set — on every path that sets
+	//     it the parked commits are re-validated, whatever the node's own role (a node that has not sent its own
+	//     pre-commit, or a watch-only one, counts them later just the same)
+	commitRoutine := ""
+	for f, t := range vr {
+		if t == "ctx.CommitPayloads" {
+			commitRoutine = f.Name
+		}
+	}
+	seenRoot := map[*FuncInfo]bool{}
+	for _, ws := range c.writesTo("ctx.preBlockProcessed") {
+		setsTrue := false
+		for _, sn := range ws.Snaps {
+			if sn.Val != nil && sn.Val.K == KConst && sn.Val.S == "true" {
+				setsTrue = true
+			}
+		}
+		root := c.phaseRoot(ws.Fn)
+		if !setsTrue || seenRoot[root] || commitRoutine == "" {
+			continue
+		}
+		seenRoot[root] = true
+		r.Sites++
+		bad := ""
+		for _, e := range c.exitsOf(root) {
+			if e.Killed["ctx.preBlockProcessed"] == 0 {
+				continue
+			}
+			if v, known := e.F.value(mkAtom("b", fld("ctx.preBlockProcessed", false), nil)); !known || !v {
+				continue
+			}
+			if !e.Events["fn:"+commitRoutine] {
+				bad = "{" + strings.Join(e.Trail, "; ") + "}"
+			}
+		}
+		if bad == "" {
+			r.ok(root.Name + ": every path that marks the pre-block as processed re-validates the parked commits")
+		} else {
+			r.fail(root.Name+"/preblock-processed-without-revalidation", c.Prog.Pos(ws.Node), "the pre-block is marked as processed (from now on the header can be built) without re-validating the commits that were parked unverified while it could not, on path "+bad+": a node that has not sent its own pre-commit (or is watch-only) later counts them towards the M commits without ever having checked their signatures")
+		}
+	}
 	return r
 }
 
